@@ -10,7 +10,7 @@
    [g_cl_queued s] = every byte ever queued for the client (ghost), [delivered_client] = bytes the client
    socket accepted, [pending_client] = bytes still buffered.  handle_events returns
    Teardown (True) | Continue (False) | Raised (an exception escaped; threadless treats it as True). *)
-From PM Require Import Lib.Bytes Net.Conn Net.ConnFacts Net.Handler Net.HandlerFacts.
+From PM Require Import Lib.Bytes Net.Conn Net.ConnFacts Net.Handler Net.HandlerFacts Net.Tunnel Net.TunnelFacts.
 From Coq Require Import ZArith.
 
 (* Whatever path makes handle_events decide teardown — client EOF/reset, upstream EOF/reset/timeout,
@@ -87,6 +87,34 @@ Theorem C07_threaded_shutdown_delivers : forall c sel s,
   closed (work s') = true /\ buffer (work s') = [] /\ sent (work s') = sent (work s) ++ pending (work s).
 Proof. exact threaded_shutdown_delivers. Qed.
 Print Assumptions C07_threaded_shutdown_delivers.
+
+(* ---- BaseTcpTunnelHandler (proxy/core/base/tcp_tunnel.py; only used through --work-klass, e.g.
+   examples/https_connect_tunnel.py — not reachable from the default proxy), modelled WITH
+   commit 76c50ed (proposed_fixes/C07-tunnel-upstream-eof.diff).  Before that patch handle_events returned True at once when the
+   upstream closed, dropping whatever was still buffered for the client. *)
+
+(* a teardown decided by the tunnel handler finds the client buffer empty, unless it is the client side that
+   ended (EOF / reset / timeout on the client recv — BaseTcpServerHandler gives up at once on those) *)
+Theorem C07_tunnel_handler_teardown_flushed : forall c ev s s',
+  tunnel_handle_events c ev s = (s', Teardown) ->
+  client_ended ev = true \/ buffer (work s') = [].
+Proof. exact tunnel_teardown_flushed. Qed.
+Print Assumptions C07_tunnel_handler_teardown_flushed.
+
+(* the upstream's close with output pending arms must_flush_before_shutdown instead of tearing down, and the
+   call whose client flush empties the buffer then returns True *)
+Theorem C07_tunnel_handler_server_close : forall c ev s u w' n,
+  (upstream s = Some u -> u_r ev = true -> u_recv ev = REof -> has_buffer (work s) = true ->
+   tunnel_server_events c ev s = (set_must_flush true s, Continue)) /\
+  (must_flush s = true -> c_w ev = true -> has_buffer (work s) = true ->
+   flush (max_send c) (c_send ev) (work s) = (w', Flushed n) -> buffer w' = [] ->
+   exists s', tunnel_handle_events c ev s = (s', Teardown) /\ work s' = w').
+Proof.
+  intros c ev s u w' n. split.
+  - apply tunnel_server_close_waits.
+  - apply tunnel_final_flush_prompt.
+Qed.
+Print Assumptions C07_tunnel_handler_server_close.
 
 (* ---- non-vacuity: the origin answers 413 while the request is still being sent, the client accepts only
    one byte, the next upstream flush fails with a broken pipe (NO teardown: this is the repaired path,
